@@ -166,7 +166,13 @@ def coq_assumptions(module, theorems):
             cur = m.group(1); res[cur] = []
         elif cur and line.strip():
             res[cur].append(line.strip())
-    return {k: " ".join(v) for k, v in res.items()}, out
+    def names(lines):
+        txt = " ".join(lines)
+        if txt.startswith("Closed under the global context"):
+            return "Closed under the global context"
+        ax = re.findall(r"([A-Za-z_][A-Za-z0-9_.']*) :", txt)
+        return "Axioms: " + ", ".join(dict.fromkeys(ax)) if ax else txt[:400]
+    return {k: names(v) for k, v in res.items()}, out
 
 
 FORBIDDEN = re.compile(r"\b(Admitted|admit|Axiom|Parameter|Conjecture|Abort All|bypass_check|Unset Guard Checking|Unset Positivity Checking|Unset Universe Checking|type-in-type|Admit Obligations)\b")
